@@ -4,10 +4,10 @@
     Vocabulary (C16/Model.v = the Go code as it is, C16/Spec.v = the specification):
       [load cfg_kid file]          jwtSigner.load up to the swap: Ok new-fields | Err | Panic
       [sign st iss sub ttl now jti custom]   jwtSigner.Sign on the fields it read
-      [run fixed cfg file ops]     ([fixed] = with the repair of C16-F1?) newJWTFinalizer, then Execute / file replaced + OnChanged / GET JWKS
+      [run fx cfg file ops]        ([fx] = which repairs are in the tree) newJWTFinalizer, then Execute / file replaced + OnChanged / GET JWKS
       [spec_accept cfg_kid file]   the usable store and its active entry (by key id, else the first)
-      [run_ok]                     what every observation of a run must look like
-      [guard_F1]                   the inputs of finding C16-F1 (token reuse across a same-kid key change)
+      [run_ok] / [run_prop]        the full specification of a run / what the property statement fixes of it
+      [guard_F1], [guard_F2]       the inputs of the (repaired) findings C16-F1, C16-F2
     Keys are indices into a pool; "signed by Priv k verifies under Pub k" and the
     parsing of PEM/X.509/JSON are trusted (see the level note). *)
 From HV Require Import Base.Prelude C16.Model C16.Spec C16.Proofs C16.Locks C16.LocksProofs.
@@ -86,39 +86,73 @@ Theorem C16_jwks_public_only : forall cfg_kid f st,
 Proof. exact jwks_public_only. Qed.
 Print Assumptions C16_jwks_public_only.
 
-(** all histories (any number of Execute / reload / JWKS operations, any files, any
-    configuration, token cache on or off, other key holders in the registry, Execute on the
-    catalogue finalizer or on any rule-level variant of it): every
-    observation of the run is what the specification demands — every token handed out
-    (also a reused one) verifies against the key set served at that moment, names and is
-    signed by the then active key, carries the system claims; every JWKS answer is the
-    public view of the last accepted store (and of the other holders); unusable files
-    change nothing.  [run true] is the tree as it is now, i.e. with the repair of C16-F1
-    (fix: commit d9caf75, the token cache key covers the key itself). *)
+(** ALL HISTORIES.  A history is a configuration (key id, signer name, ttl, claims template,
+    token cache on/off, a twin finalizer with another signer name on the same cache, other
+    key holders in the registry), an initial key-store file and any list of operations:
+    Execute (for any subject / outputs / attributes) on the catalogue finalizer, its twin
+    or any rule-level variant of either — WITH ANY LIST OF KEY-STORE RELOADS LANDING BETWEEN
+    Execute's cache lookup and its signing (Execute enters the signer's lock twice) —, a
+    reload, a JWKS request, time passing for the cache.  [run fx_all] is the tree as it is
+    (with the repairs of C16-F1, fix: commit d9caf75, and C16-F2, fixes/C16-F2.diff).
+
+    Every observation of every run meets the full specification of the finalizer
+    ([run_ok]: typ JWT, custom claims, reuse only with cache and ttl > 5s, exact JWKS
+    content and order, exact acceptance of files and overrides) ... *)
 Theorem C16_run_meets_spec : forall c f ops,
-  run_ok c f ops (fst (run true c f ops)) (snd (run true c f ops)) = true.
+  run_ok c f ops (fst (run fx_all c f ops)) (snd (run fx_all c f ops)) = true.
 Proof. exact run_meets_spec_fixed. Qed.
 Print Assumptions C16_run_meets_spec.
 
-(** the same for the pinned (unrepaired) tree outside the inputs of C16-F1 ... *)
-Theorem C16_run_meets_spec_pinned : forall c f ops,
-  guard_F1 c f ops = false ->
-  run_ok c f ops (fst (run false c f ops)) (snd (run false c f ops)) = true.
-Proof. exact run_meets_spec. Qed.
+(** ... and hence what the property statement fixes ([run_prop], the predicate the check
+    evaluates on the implementation's observations): every token handed out — fresh or
+    reused, by the finalizer, its twin or a variant, also when reloads land inside Execute —
+    verifies against the key set served at that moment (for an Execute overlapped by
+    reloads: at its beginning or at its end), names the then active key's id and algorithm
+    and is signed by it, has sub = the subject's id, iss = the signer's name, iat = nbf =
+    the issue time, exp the effective ttl later, a jti of its own; a reused token is one
+    handed out before and not older than its ttl; every JWKS answer has no private
+    material and contains the current store's (and the other holders') public keys *)
+Theorem C16_run_meets_property : forall c f ops,
+  run_prop c f ops (fst (run fx_all c f ops)) (snd (run fx_all c f ops)) = true.
+Proof. exact run_meets_property. Qed.
+Print Assumptions C16_run_meets_property.
+
+(** the same for a tree lacking one or both repairs, outside the inputs of the respective finding *)
+Theorem C16_run_meets_spec_pinned : forall fx c f ops,
+  (fx_F1 fx = false -> guard_F1 c f ops = false) ->
+  (fx_F2 fx = false -> guard_F2 c ops = false) ->
+  run_ok c f ops (fst (run fx c f ops)) (snd (run fx c f ops)) = true.
+Proof. exact run_meets_spec_gen. Qed.
 Print Assumptions C16_run_meets_spec_pinned.
 
-(** ... and C16-F1 itself, as it was: with token reuse, a reload that keeps key id and
-    algorithm but replaces the key lets the finalizer hand out a token of the replaced
-    key, which does not verify against the key set published at that moment *)
+(** C16-F1 as it was: with a token cache, a reload that keeps key id and algorithm but
+    replaces the key let the finalizer hand out a token of the replaced key, which does
+    not verify against the key set published at that moment *)
 Theorem C16_F1_pinned_refuted :
   exists c f ops t,
     guard_F1 c f ops = true /\
-    nth_error (snd (run false c f ops)) 3 = Some (XToken t false) /\
-    nth_error (snd (run false c f ops)) 2 = Some (XJwks [spec_jwk (f1_entry 11)]) /\
+    nth_error (snd (run fx_pinned c f ops)) 3 = Some (XToken t false) /\
+    nth_error (snd (run fx_pinned c f ops)) 2 = Some (XJwks [spec_jwk (f1_entry 11)]) /\
     t_key t = Priv (r_key (f1_entry 10)) /\
-    run_ok c f ops (fst (run false c f ops)) (snd (run false c f ops)) = false.
+    run_prop c f ops (fst (run fx_pinned c f ops)) (snd (run fx_pinned c f ops)) = false.
 Proof. exact F1_refuted. Qed.
 Print Assumptions C16_F1_pinned_refuted.
+
+(** C16-F2 as it is without fixes/C16-F2.diff: the store is replaced by B between an
+    Execute's cache lookup (under A) and its signing; the B-signed token is filed under
+    A's cache key; after the roll-back to A the next Execute hands out the B-token, whose
+    key is not published *)
+Theorem C16_F2_pinned_refuted :
+  exists t,
+    guard_F2 f2_cfg f2_ops = true /\ guard_F1 f2_cfg (PemOk [f2_entry 7 "key-a"]) f2_ops = false /\
+    snd (run fx_F1_only f2_cfg (PemOk [f2_entry 7 "key-a"]) f2_ops) =
+      [XToken t true; XDone; XJwks [spec_jwk (f2_entry 7 "key-a")]; XToken t false] /\
+    t_kid t = "key-b" /\ t_key t = Priv (r_key (f2_entry 8 "key-b")) /\
+    run_prop f2_cfg (PemOk [f2_entry 7 "key-a"]) f2_ops
+             (fst (run fx_F1_only f2_cfg (PemOk [f2_entry 7 "key-a"]) f2_ops))
+             (snd (run fx_F1_only f2_cfg (PemOk [f2_entry 7 "key-a"]) f2_ops)) = false.
+Proof. exact F2_refuted. Qed.
+Print Assumptions C16_F2_pinned_refuted.
 
 (** rule-level variants (jwtFinalizer.WithConfig): an override is accepted iff it consists
     of ttl (> 1s) and/or claims, and the variant is the catalogue configuration with exactly
@@ -127,7 +161,7 @@ Theorem C16_variant_overlays_catalogue : forall c o ce,
   with_config c o = Ok ce <->
   (o_unknown o = false /\ (forall t, o_ttl o = Some t -> (second < t)%Z) /\
    ce = {| c_keyid := c_keyid c; c_name := c_name c; c_ttl := overlay (o_ttl o) (c_ttl c);
-           c_claims := overlay (o_claims o) (c_claims c); c_cache := c_cache c;
+           c_claims := overlay (o_claims o) (c_claims c); c_cache := c_cache c; c_twin := c_twin c;
            c_before := c_before c; c_after := c_after c |}).
 Proof. exact variant_overlay. Qed.
 Print Assumptions C16_variant_overlays_catalogue.
@@ -136,9 +170,9 @@ Print Assumptions C16_variant_overlays_catalogue.
     rule gives one, else the catalogue finalizer's (else 5 minutes) —, the issuer is the
     catalogue's, custom claims come from its own template if the rule gives one, else from
     the catalogue's *)
-Theorem C16_variant_token : forall c o ce st sub now jti t,
+Theorem C16_variant_token : forall c o ce st q now jti t,
   with_config c o = Ok ce ->
-  sign st (issuer ce) sub (ttl_of ce) now jti (custom_of ce sub) = Ok t ->
+  sign st (issuer ce) (q_sub q) (ttl_of ce) now jti (custom_of ce q) = Ok t ->
   let ttl := match o_ttl o with Some x => x | None => ttl_of c end in
   let tmpl := match o_claims o with Some x => x | None => tmpl_of c end in
   issuer ce = issuer c /\
@@ -148,23 +182,27 @@ Theorem C16_variant_token : forall c o ce st sub now jti t,
     (ttl / second <= exp - iat <= (ttl + 999999999) / second)%Z /\
     (forall s, ttl = (s * second)%Z -> (exp - iat = s)%Z) /\
     (forall k, ~ In k reserved ->
-       mget k (t_claims t) = option_map (resolve sub) (tmpl_get k tmpl)).
+       mget k (t_claims t) = option_map (spec_value q) (tmpl_get k tmpl)).
 Proof. exact variant_token. Qed.
 Print Assumptions C16_variant_token.
 
-(** non-vacuity: reuse on, another key holder, a reload rotates the active key, rule-level
-    variants with only a ttl, only claims, and an invalid one *)
+(** non-vacuity (a vm_compute example): reuse on, another key holder, a twin with another
+    signer name, a reload rotating the key, a reload landing inside an Execute, the cache
+    clock passing the reuse window, rule-level variants with only a ttl, only claims, and
+    an invalid one *)
 Theorem C16_nonvacuous :
-  guard_F1 nv_cfg (PemOk [nv_entry 3 "old"]) nv_ops = false /\
-  exists t1 t2 t3 t4,
-    snd (run true nv_cfg (PemOk [nv_entry 3 "old"]) nv_ops) =
-      [XToken t1 true; XToken t1 true; XDone; XToken t2 true; XToken t3 true; XToken t4 true; XErr;
-       XJwks [spec_jwk (nv_entry 5 "other"); spec_jwk (nv_entry 4 "new"); spec_jwk (nv_entry 3 "old")]] /\
-    t_kid t1 = "old" /\ t_kid t2 = "new" /\ t_alg t2 = "PS384" /\
-    mget "sub" (t_claims t2) = Some (VStr "alice") /\ mget "who" (t_claims t2) = Some (VStr "alice") /\
-    mget "exp" (t_claims t2) = Some (VInt 1093%Z) /\
+  exists t1 t1' t2 t2' t3 t4,
+    snd (run fx_all nv_cfg (PemOk [nv_entry 3 "old"]) nv_ops) =
+      [XToken t1 true; XToken t1 true; XToken t1' true; XDone; XToken t2 true; XDone; XToken t2' true;
+       XToken t3 true; XToken t4 true; XErr;
+       XJwks [spec_jwk (nv_entry 5 "other"); spec_jwk (nv_entry 3 "old")]] /\
+    t_kid t1 = "old" /\ mget "iss" (t_claims t1) = Some (VStr "idp") /\
+    mget "iss" (t_claims t1') = Some (VStr "idp-2") /\
+    t_kid t2 = "old" /\ t_alg t2 = "PS384" /\ mget "grp" (t_claims t2) = Some (VStr "a") /\
+    mget "sub" (t_claims t2) = Some (VStr "alice") /\ mget "exp" (t_claims t2) = Some (VInt 1093%Z) /\
+    mget "iat" (t_claims t2') = Some (VInt 1003%Z) /\
     mget "exp" (t_claims t3) = Some (VInt 1033%Z) /\ mget "who" (t_claims t3) = Some (VStr "alice") /\
-    mget "exp" (t_claims t4) = Some (VInt 1094%Z) /\ mget "scope" (t_claims t4) = Some (VStr "read") /\
+    mget "exp" (t_claims t4) = Some (VInt 1094%Z) /\ mget "scope" (t_claims t4) = Some (VStr "o") /\
     mget "who" (t_claims t4) = None.
 Proof. exact nonvacuous. Qed.
 Print Assumptions C16_nonvacuous.
